@@ -546,6 +546,9 @@ def run(ctx):
     from . import scope as _scope
     _scope.rule_no_size_thresholds(ctx, 'R15.10', ('validators', '_utils'), 'retrieval and caching')
     _scope.rule_no_value_identity(ctx, 'R15.11', ('validators', '_utils'), 'the resolver and the dispatcher')
+    # R15.12: a resolver's store is its own: a store handed in -- a URIDict too -- is copied, never adopted (C15-r7m3)
+    from .c18 import rule_per_validator_resolver
+    rule_per_validator_resolver(ctx, "R15.12")
 
 def rule_handler_documents(ctx, rid="R15.8"):
     from .ressem import handler_docs_eval
